@@ -45,4 +45,41 @@ proof {
     }
 }
 @end
+
+@raw
+verus! {
+pub open spec fn sig_v() -> Seq<u8> { seq![97u8, 98, 121, 115, 100, 98, 86, 0] }
+/// documented value-file header (val.rs:156-181): signature1, type signature, 176 zero bytes (reserves + 16 free-list heads)
+pub open spec fn hdr_val(sig2: Seq<u8>) -> Seq<u8> { sig_v() + sig2 + zeros(176) }
+} // verus!
+@end
+
+@fn src/filedb/inner/val.rs | - | write_valrecf_init_header
+@serves C12 C18
+@requires
+old(file)@.bytes.len() == 0
+@ensures
+okh(old(file)@, final(file)@, r), final(file).piece_mgr == old(file).piece_mgr,
+r is Ok ==> final(file)@.bytes == hdr_val(signature2@),
+r is Ok ==> final(file)@.unflushed && final(file)@.unsynced
+@exit
+proof {
+    if r__ is Ok {
+        reveal_with_fuel(le_bytes, 9);
+        assert(le_bytes(0, 8) =~= zeros(8));
+        assert(DAT_HEADER_SIGNATURE@ =~= sig_v());
+        assert(final(file)@.bytes =~= hdr_val(signature2@));
+    }
+}
+@end
+
+@fn src/filedb/inner/val.rs | - | check_valrecf_header
+@opts refusal
+@serves C13
+@requires
+old(file)@.bytes.len() >= 24
+@ensures
+okh(old(file)@, final(file)@, r), same_but_pos(old(file)@, final(file)@), final(file).piece_mgr == old(file).piece_mgr,
+r is Ok ==> rd(old(file)@.bytes, 0, 8) == sig_v() && rd(old(file)@.bytes, 8, 8) == signature2@
+@end
 @endmod
